@@ -29,19 +29,42 @@ void vk_other(void) {}
 
 void harness(void) {
   vm_alloc_install();
-  int existed = ND_BOOL();
+  /* pre: 0 = the name does not exist; 1 = process 1 holds a LIVE handle of the same kind with data in it;
+   * 2 (buffer script only) = a raw segment too small for a buffer exists */
+#if SCRIPT == 2
+  int pre = ND_RANGE(0, 2);
+#else
+  int pre = ND_RANGE(0, 1);
+#endif
+#ifdef PRE_ONLY
+  VASSUME(pre == PRE_ONLY);      /* runner case split on the pre-state */
+#endif
+  int existed = pre != 0;
   unsigned long sz0 = (unsigned long) ND_RANGE(1, VK_SEGMAX), sz = (unsigned long) ND_RANGE(1, VK_SEGMAX);
 #if SCRIPT == 2
   VASSUME(sz + 17 <= VK_SEGMAX);
+  if (pre == 1) VASSUME(sz0 >= 19);            /* buffer of capacity sz0 - 17 >= 2 */
+  if (pre == 2) VASSUME(sz0 <= 17);
 #endif
   /* prologue by process 1 (never fails, not part of the ledger of process 0) */
   void *other = NULL;
+  PShmBuffer *h1 = NULL;
   if (existed) {
     vk_cur = 1;
 #if SCRIPT == 0
     other = p_semaphore_new("a", 1, P_SEM_ACCESS_OPEN, NULL);
-#else
+#elif SCRIPT == 1
     other = p_shm_new("a", sz0, P_SHM_ACCESS_READWRITE, NULL);
+    if (other != NULL) ((unsigned char *) p_shm_get_address((PShm *) other))[0] = 0x5A;
+#else
+    if (pre == 1) {
+      unsigned char d0[2] = { 7, 9 };
+      h1 = p_shm_buffer_new("a", sz0 - 17, NULL);
+      VASSUME(h1 != NULL);
+      VASSUME(p_shm_buffer_write(h1, d0, 2, NULL) == 2);
+      other = h1;
+    } else
+      other = p_shm_new("a", sz0, P_SHM_ACCESS_READWRITE, NULL);
 #endif
     VASSUME(other != NULL);
   }
@@ -84,13 +107,14 @@ void harness(void) {
 #ifdef KF_DEMO_MUNMAP
   VASSUME(existed && (sz + VK_PAGE - 1) / VK_PAGE < (sz0 + VK_PAGE - 1) / VK_PAGE);
 #endif
-  PShm *m = p_shm_new("a", sz, P_SHM_ACCESS_READWRITE, &err);
+  int rw = ND_BOOL();                      /* access permission symbolic: the ledgers must not depend on it */
+  PShm *m = p_shm_new("a", sz, rw ? P_SHM_ACCESS_READWRITE : P_SHM_ACCESS_READONLY, &err);
   if (m != NULL) {
     got = 1;
     unsigned char *a = (unsigned char *) p_shm_get_address(m);
     unsigned long o = (unsigned long) ND_RANGE(0, VK_SEGMAX - 1);
     VASSERT(a != NULL && p_shm_get_size(m) > 0 && p_shm_get_size(m) <= (unsigned long) vk_map_len(0, a), "handle returned under failure injection is mapped");
-    if (o < p_shm_get_size(m)) a[o] = 1;
+    if (rw && o < p_shm_get_size(m) && o > 0) a[o] = 1;
     vk_expect_noblock = 1;
     VASSERT(p_shm_lock(m, NULL) == TRUE, "lock usable");
     vk_expect_noblock = 0;
@@ -113,6 +137,7 @@ void harness(void) {
       VASSERT(p_shm_buffer_write(b, d, 2, NULL) == 2, "buffer returned under failure injection accepts data");
       VASSERT(p_shm_buffer_read(b, r, 2, NULL) == 2 && r[0] == 7 && r[1] == 9, "and returns it");
     }
+    if (pre == 1) VASSERT(p_shm_buffer_get_used_space(b, NULL) == 2, "handle on an existing buffer sees the data queued in it");
     p_shm_buffer_take_ownership(b);
     p_shm_buffer_free(b);
   }
@@ -132,7 +157,7 @@ void harness(void) {
 #endif
 #if SCRIPT == 2
   /* an existing segment too small for a buffer header is a documented reason for NULL */
-  if (!got && existed && sz0 <= 17) injected++;
+  if (!got && pre == 2) injected++;
 #endif
   if (!got) VASSERT(injected > 0, "constructor fails only when an allocation or a system call was made to fail");
   if (got && injected == 0) VASSERT(err == NULL, "no error object on success");
@@ -153,21 +178,67 @@ void harness(void) {
   if (!existed) VASSERT(vk_names_linked() == names0, "no IPC name created by the script is left in the system");
   else VASSERT(vk_names_linked() <= names0, "no additional IPC name left in the system");
   if (existed && got) VASSERT(vk_names_linked() == 0, "owner free removed the pre-existing names");
+  /* "objects that existed before the call remain valid and unchanged": a FAILED open of an existing object must not
+   * unlink, reset or detach it - the live handle of process 1 keeps working and a further open attaches to the same object */
+  int replacing = 0;
+#if SCRIPT == 0
+  replacing = (mode == P_SEM_ACCESS_CREATE);   /* CREATE mode replaces the counter on purpose (unlink + create): not an "open" */
+#endif
+  if (existed && !got && !replacing) {
+    VASSERT(vk_names_linked() == names0, "a failed open leaves the existing names linked");
+#if SCRIPT == 0
+    VASSERT(vk_sem_value(0) == 1, "a failed open leaves the existing counter untouched");
+    PSemaphore *third = p_semaphore_new("a", 3, P_SEM_ACCESS_OPEN, NULL);
+    VASSERT(third != NULL, "a further open succeeds");
+    VASSUME(third != NULL);
+    VASSERT(p_semaphore_release(third, NULL) == TRUE && vk_sem_value(0) == 2, "a further open attaches to the SAME counter");
+    vk_expect_noblock = 1;
+    VASSERT(p_semaphore_acquire(third, NULL) == TRUE && vk_sem_value(0) == 1, "and operates on it");
+    vk_expect_noblock = 0;
+    p_semaphore_free(third);
+#elif SCRIPT == 1
+    unsigned char *oa = (unsigned char *) p_shm_get_address((PShm *) other);
+    VASSERT(oa[0] == 0x5A, "a failed open leaves the existing bytes untouched");
+    PShm *third = p_shm_new("a", sz0, P_SHM_ACCESS_READWRITE, NULL);
+    VASSERT(third != NULL && p_shm_get_address(third) == (ppointer) oa, "a further open attaches to the SAME segment");
+    VASSUME(third != NULL);
+    VASSERT(vk_sem_value(0) == 1, "lock of the existing segment untouched");
+    vk_expect_noblock = 1;
+    VASSERT(p_shm_lock(third, NULL) == TRUE && vk_sem_value(0) == 0, "a further open attaches to the SAME lock");
+    vk_expect_noblock = 0;
+    VASSERT(p_shm_unlock(third, NULL) == TRUE, "unlock");
+    p_shm_free(third);
+#else
+    if (pre == 1) {
+      PShmBuffer *third = p_shm_buffer_new("a", sz0 - 17, NULL);
+      VASSERT(third != NULL, "a further open of the buffer succeeds");
+      VASSUME(third != NULL);
+      VASSERT(p_shm_buffer_get_used_space(third, NULL) == 2, "a further open attaches to the SAME buffer (sees the queued data)");
+      p_shm_buffer_free(third);
+      unsigned char r1[2] = { 0, 0 };
+      vk_cur = 1;
+      VASSERT(p_shm_buffer_read(h1, r1, 2, NULL) == 2 && r1[0] == 7 && r1[1] == 9, "the live handle still reads its data after the failed open");
+    }
+#endif
+  }
   /* the other process' object is untouched by whatever failed in process 0 */
   if (existed) {
     vk_cur = 1;
 #if SCRIPT == 0
     VASSERT(p_semaphore_release((PSemaphore *) other, NULL) == TRUE, "object of the other process still usable");
-#else
+#elif SCRIPT == 1
     VASSERT(p_shm_get_size((PShm *) other) == sz0 && p_shm_get_address((PShm *) other) != NULL, "object of the other process unchanged");
+#else
+    if (pre == 2) VASSERT(p_shm_get_size((PShm *) other) == sz0 && p_shm_get_address((PShm *) other) != NULL, "object of the other process unchanged");
+    else VASSERT(p_shm_buffer_get_free_space(h1, NULL) >= 0, "buffer handle of the other process still usable");
 #endif
   }
   VWITNESS("script completed");
-#if !defined(FAIL_AT) || defined(FAIL_LAST)
+#if (!defined(FAIL_AT) || defined(FAIL_LAST))
   if (got && injected == 0) VWITNESS("success path");
 #endif
 #if !defined(FAIL_LAST)
   if (!got) VWITNESS("constructor failed");
-  if (existed && !got) VWITNESS("failure while opening an existing object");
+  if (pre == 1 && !got) VWITNESS("failure while opening an existing object with a live handle");
 #endif
 }
